@@ -266,6 +266,26 @@ def _eval_into(H, fn, stmts, guard, env, pw):
             if isinstance(t, ast.UnaryOp) and isinstance(t.op, ast.Not):
                 t, pol = t.operand, False
             _eval_into(H, fn, st.body, guard + [(norm(t), pol)], env, pw)
+        elif isinstance(st, ast.If) and not guard and _simple_arms(st):
+            # if c: x = A  else: x = B   ->  x = {c: A; not c: B}
+            t = st.test
+            pol = True
+            if isinstance(t, ast.UnaryOp) and isinstance(t.op, ast.Not):
+                t, pol = t.operand, False
+            names = {a.targets[0].id for a in st.body + st.orelse}
+            arms = {}
+            for arm, p_ in ((st.body, pol), (st.orelse, not pol)):
+                for a in arm:
+                    v = H.nf(a.value, fn, {k: v_ for k, v_ in env.items() if isinstance(v_, Lin)})
+                    arms.setdefault(a.targets[0].id, []).append((((norm(t), p_),), v))
+            for nm in names:
+                alts = arms.get(nm, [])
+                if len(alts) == 2 and all(v is not None for _, v in alts):
+                    pw[nm] = alts
+                    env.pop(nm, None)
+                else:
+                    pw.pop(nm, None)
+                    env.pop(nm, None)
         elif isinstance(st, (ast.If, ast.For, ast.While, ast.With, ast.Try)):
             # anything assigned inside is no longer known
             for x in ast.walk(st):
@@ -274,6 +294,12 @@ def _eval_into(H, fn, stmts, guard, env, pw):
                         if isinstance(t, ast.Name):
                             pw.pop(t.id, None)
                             env.pop(t.id, None)
+
+
+def _simple_arms(st):
+    """Both arms consist of plain assignments to local names only."""
+    both = st.body + st.orelse
+    return bool(st.orelse) and all(isinstance(a, ast.Assign) and len(a.targets) == 1 and isinstance(a.targets[0], ast.Name) for a in both)
 
 
 def canon_test(H, t, fn):
@@ -573,8 +599,17 @@ def merkle_facts(ctx):
     """Structure of hasher.merkle_root and utils.next_power_2."""
     out = {}
     mr = ctx.prog.func("torrentfile.hasher:merkle_root")
-    p = mr.params[0]
+    p0 = mr.params[0]
     whiles = [n for n in own_nodes(mr.node) if isinstance(n, ast.While)]
+    # the working list: the parameter itself or a local bound to it before the loop (layer = blocks)
+    alias = {p0}
+    for n in own_nodes(mr.node):
+        if isinstance(n, ast.Assign) and isinstance(n.value, ast.Name) and n.value.id in alias:
+            alias |= {t.id for t in n.targets if isinstance(t, ast.Name)}
+    p = p0
+    if len(whiles) == 1 and isinstance(whiles[0].test, ast.Compare) and isinstance(whiles[0].test.left, ast.Call) and norm(whiles[0].test.left.func) == "len" \
+            and whiles[0].test.left.args and isinstance(whiles[0].test.left.args[0], ast.Name) and whiles[0].test.left.args[0].id in alias:
+        p = whiles[0].test.left.args[0].id
     ok_loop = len(whiles) == 1 and isinstance(whiles[0].test, ast.Compare) and norm(whiles[0].test.left) == "len(%s)" % p \
         and isinstance(whiles[0].test.ops[0], ast.Gt) and fold_int(whiles[0].test.comparators[0]) == 1
     out["merkle.loop"] = Fact("while len(blocks) > 1" if ok_loop else "?" + (norm(whiles[0].test) if whiles else "no loop"), whiles[0] if whiles else mr.node, mr)
@@ -593,7 +628,15 @@ def merkle_facts(ctx):
                             and norm(arg.left) == norm(tgt.elts[0]) and norm(arg.right) == norm(tgt.elts[1]):
                         it = norm(g.iter)
                         pairs = it in ("zip(*[iter(%s)] * 2)" % p, "zip(%s[::2], %s[1::2])" % (p, p), "zip(*(iter(%s),) * 2)" % p)
-                        pair = "%s(left + right) over consecutive pairs" % hname[0] if pairs else "%s(left + right) over %s" % (hname[0], it)
+                        pair = "%s(left + right) over consecutive pairs" % hname[0] if pairs else "?%s(left + right) over %s" % (hname[0], it)
+                    elif isinstance(arg, ast.BinOp) and isinstance(arg.op, ast.Add) and isinstance(tgt, ast.Name) and not g.ifs:
+                        # index form:  sha256(W[i] + W[i + 1])  for i in range(0, len(W) [- 1], 2)
+                        iv = tgt.id
+                        it = g.iter
+                        rng = isinstance(it, ast.Call) and norm(it.func) == "range" and len(it.args) == 3 and fold_int(it.args[0]) == 0 and fold_int(it.args[2]) == 2 \
+                            and norm(it.args[1]) in ("len(%s)" % p, "len(%s) - 1" % p)
+                        idx = norm(arg.left) == "%s[%s]" % (p, iv) and norm(arg.right) == "%s[%s + 1]" % (p, iv)
+                        pair = "%s(left + right) over consecutive pairs" % hname[0] if rng and idx else "?%s(%s) for %s in %s" % (hname[0], norm(arg), iv, norm(it))
                     elif arg is not None:
                         pair = "%s(%s)" % (hname[0] if hname else "?", norm(arg))
     out["merkle.pair"] = Fact(pair or "?pairing not found", whiles[0] if whiles else mr.node, mr)
@@ -624,6 +667,17 @@ def merkle_facts(ctx):
                 desc = "least power of two >= value (start 1, double while <= value, exact powers returned early)"
             else:
                 desc = "start 1, double while %s value: not the least power of two >= value" % type(t.ops[0]).__name__
+    if not wl:
+        # closed form:  value < 2 -> 1 ;  1 << (value - 1).bit_length()
+        rets2 = [n for n in own_nodes(np2.node) if isinstance(n, ast.Return) and n.value is not None]
+        shift = [r for r in rets2 if isinstance(r.value, ast.BinOp) and isinstance(r.value.op, ast.LShift) and fold_int(r.value.left) == 1 and norm(r.value.right) == "(%s - 1).bit_length()" % v]
+        small = [r for r in rets2 if fold_int(r.value) == 1]
+        g2 = C.cfg_of(np2)
+        if len(shift) == 1 and len(small) == 1 and len(rets2) == 2:
+            sn = C.stmt_node(ctx, np2, small[0])
+            conds = {(norm(C.test_expr(b)), lab) for b, lab in g2.control_deps(sn) if C.test_expr(b) is not None}
+            if conds in ({("%s < 2" % v, "true")}, {("%s <= 1" % v, "true")}):
+                desc = "least power of two >= value (start 1, double while < value)"      # same function, closed form
     out["next_power_2"] = Fact(desc, wl[0] if wl else np2.node, np2)
     return out
 
